@@ -319,6 +319,9 @@ func zzEvents(tag byte, m int) [][]byte {
 	ev := make([][]byte, m)
 	for i := range ev {
 		ev[i] = []byte{tag, byte(i)}
+		if i > 255 {
+			ev[i] = []byte{tag + byte(i>>8), byte(i)} // distinct events (and digest prefixes) beyond 256 per request
+		}
 	}
 	return ev
 }
